@@ -222,3 +222,15 @@ def compile_parallel(batches, **kw):
     with ThreadPoolExecutor(max_workers=R.NPROC) as ex:
         futs = {name: ex.submit(compile_batch, name, mods, **kw) for name, mods in batches}
         return {name: f.result() for name, f in futs.items()}
+
+
+def via_macro(head, item):
+    """the same request with the item declared THROUGH a macro_rules! macro: the macro writes the derive_ex / derive
+    attribute (`head`), the item's tokens come from the caller - so the tokens of the request carry two different
+    hygiene contexts, as they do in any crate that generates its types with a macro"""
+    return 'macro_rules! __via { ($($i:tt)*) => { %s $($i)* }; }\n__via! { %s }\n' % (head.strip(), item)
+
+
+def decl(head, item, cid, every=4):
+    """declaration text of a case: every `every`-th case is declared through a macro_rules! macro (see via_macro)"""
+    return via_macro(head, item) if cid % every == 0 else head + item
